@@ -9,6 +9,8 @@ C04-c  the match guard of zck_copy_chunks (C08-b) and the extents of range_add (
 C04-e  every range request of the fetch loop is made with fail_no_ranges set on the download context, so that a 200
        answer (whole file instead of the ranges) aborts and is retried with fewer ranges instead of being fed to the
        range write callback.
+C04-f  a zckdl function that repositions the descriptor of the context being read hands it back at the offset the
+       library left (saved with SEEK_CUR), not at a computed one: the library may have read ahead.
 C04-d  the update loop reuses one zckDL: zck_dl_reset() resets every field the callbacks both read and write.
 Declined: byte identity of the result and exactness of the bytes requested against a real server.
 """
@@ -32,6 +34,7 @@ def run(ctx):
                                                  'gate': 'C04-a', 'scan-first': 'C04-b', 'copy-first': 'C04-b',
                                                  'reject-200': 'C04-e'})
         dlmain.check_dl_errors(ck, prog, config, 'C04-a')
+        dlmain.check_fd_cursor(ck, prog, config, 'C04-f')
         # the range is recomputed inside the fetch loop
         fn = dlmain.dl_main(prog)
         inside = False
@@ -58,11 +61,14 @@ CLAIM = {
     'text': 'static analysis: decides C04-a..c (protocol order) - scan and copy precede every range request, ranges '
             'are requested only while chunks are missing, fetch failures exit non-zero, and exit status 0 is reachable '
             'only with no chunk missing, through a whole-file checksum gate and after truncating the target to the '
-            'new length. Byte identity against a server is not decided. C04-d: the update loop\'s zck_dl_reset() resets every per-request field. C04-e: range requests reject a 200 answer.',
+            'new length. Byte identity against a server is not decided. C04-d: the update loop\'s zck_dl_reset() resets every per-request field. C04-e: range requests reject a 200 answer. C04-f: zckdl restores the library\'s file offset after downloading into its descriptor.',
     'note': 'trusted: clang 14 front end; libcurl; facts are per path (no join)',
 }
 
 MUTANTS = [
+    {'id': 'm04c', 'desc': 'dl_bytes seeks to the lead length instead of the saved offset (pre-fix form)', 'file': 'src/zck_dl.c',
+     'old': 'if(lseek(fd, resume, SEEK_SET) == -1) {', 'new': 'if(lseek(fd, start, SEEK_SET) == -1) {',
+     'expect': 'R7.fd-cursor dl_bytes'},
     {'id': 'm04e', 'desc': 'range requests honour the command-line flag instead of always rejecting 200 (seeded c04r4)',
      'file': 'src/zck_dl.c', 'old': """        dl_ctx.max_ranges = range_attempt[0];
         dl_ctx.fail_no_ranges = 1;""", 'new': """        dl_ctx.max_ranges = range_attempt[0];
